@@ -8,55 +8,13 @@ itself is C05).  The quantifier over histories is discharged by induction on the
 operations.  Helper lemmas: `Univers/Vers/History.lean`.
 -/
 import Univers.Vers.History
+import Univers.Vers.HistoryModel
 
 namespace Univers.C17
 
 open Univers Std
 
 variable {V : Type} {o : VOps V} {cmp : V → V → Ordering}
-
-/-- a presentation-level operation; `σ` is the shuffle applied before rebuilding, `π` the
-iteration order of the set built inside `simplify` (the hash seed) -/
-inductive Op (V : Type) where
-  | printParse
-  | permuteRebuild (σ : List (Con V) → List (Con V))
-  | simplify (π : List (Con V) → List (Con V))
-  | validate
-  | invertTwice
-
-/-- the shuffles are permutations -/
-def Op.ok : Op V → Prop
-  | .permuteRebuild σ => ∀ l, (σ l).Perm l
-  | .simplify π => ∀ l, (π l).Perm l
-  | _ => True
-
-/-- one operation on the constraint tuple of a range -/
-def step (o : VOps V) : Op V → List (Con V) → Except Err (List (Con V))
-  | .printParse, s => mkRange o s
-  | .permuteRebuild σ, s => mkRange o (σ s)
-  | .simplify π, s =>
-      match simplify o π s with
-      | .error e => .error e
-      | .ok r => mkRange o r
-  | .validate, s =>
-      match validate o s with
-      | .error e => .error e
-      | .ok _ => .ok s
-  | .invertTwice, s =>
-      match invertRange o s with
-      | none => .ok s
-      | some (.error e) => .error e
-      | some (.ok i) =>
-        match invertRange o i with
-        | none => .ok s
-        | some r => r
-
-def run (o : VOps V) : List (Op V) → List (Con V) → Except Err (List (Con V))
-  | [], s => .ok s
-  | op :: rest, s =>
-      match step o op s with
-      | .error e => .error e
-      | .ok s' => run o rest s'
 
 /-- the invariant: a well-formed version-sorted star-free list -/
 def Good (cmp : V → V → Ordering) (s : List (Con V)) : Prop :=
@@ -67,6 +25,38 @@ theorem Good.wf {s : List (Con V)} (h : Good cmp s) : WFSorted cmp s := Or.inr h
 theorem mkRange_good [TransCmp cmp] (h : Lawful o cmp) {s : List (Con V)} (hg : Good cmp s) :
     mkRange o s = .ok s :=
   sortCons_eq_of_perm h s s (List.Perm.refl _) hg.1 hg.2.1
+
+/-- simplification of a well-formed list: well-formed, same meaning, and a list that is already a
+fixed point is returned as it is -/
+theorem simplify_good [TransCmp cmp] (h : Lawful o cmp) (π : List (Con V) → List (Con V))
+    (hop : ∀ l, (π l).Perm l) (s : List (Con V)) (hg : Good cmp s) :
+    ∃ t, simplify o π s = .ok t ∧ Good cmp t ∧ (∀ x, denote cmp t x = denote cmp s x) ∧
+      (∀ π', (∀ l, (π' l).Perm l) → simplify o π' s = .ok s → t = s) := by
+  obtain ⟨R, hR, hsub, hmean, hval, hfix⟩ := C08.simplify_spec h π hop s hg.1 hg.2.1
+  have hwfR : WF cmp R := (validate_ok_iff_wf h R).mp hval
+  have hnsR : noStar R = true := by
+    apply List.all_eq_true.mpr
+    intro c hc; exact List.all_eq_true.mp hg.1 c (hsub.subset hc)
+  have hsR : StrictSorted cmp R := List.Pairwise.sublist hsub hg.2.1
+  obtain ⟨t, htp, htw⟩ := hwfR
+  have htR : t = R := by
+    rcases htw with rfl | ⟨hns, hss, _, _⟩
+    · have : R = [.star] := List.perm_singleton.mp htp.symm
+      rw [this] at hnsR; simp [noStar, Con.isStar] at hnsR
+    · exact strictSorted_perm_eq h t R hss hsR htp
+  subst htR
+  have hgR : Good cmp t := by
+    rcases htw with rfl | hh
+    · simp [noStar, Con.isStar] at hnsR
+    · exact hh
+  refine ⟨t, hR, hgR, ?_, ?_⟩
+  · intro x
+    rw [← denoteR_eq_denote t hgR.wf x, ← denoteR_eq_denote s hg.wf x]
+    exact hmean x
+  · intro π' hπ' hfixs
+    have := C08.simplify_seed_independent h π π' hop hπ' s hg.1 hg.2.1
+    rw [hR, hfixs] at this
+    injection this
 
 /-- every operation keeps a well-formed list well-formed, with the same meaning -/
 theorem step_good [TransCmp cmp] (h : Lawful o cmp) (op : Op V) (hop : op.ok) (s : List (Con V))
@@ -94,33 +84,20 @@ theorem step_good [TransCmp cmp] (h : Lawful o cmp) (op : Op V) (hop : op.ok) (s
       simp [List.map_map, Function.comp_def]
     exact ⟨s, this, hg, fun _ => rfl, fun _ _ _ => rfl⟩
   | simplify π =>
-    obtain ⟨R, hR, hsub, hmean, hval, hfix⟩ := C08.simplify_spec h π hop s hg.1 hg.2.1
-    have hwfR : WF cmp R := (validate_ok_iff_wf h R).mp hval
-    have hnsR : noStar R = true := by
-      apply List.all_eq_true.mpr
-      intro c hc; exact List.all_eq_true.mp hg.1 c (hsub.subset hc)
-    have hsR : StrictSorted cmp R := List.Pairwise.sublist hsub hg.2.1
-    -- R is its own well-formed sorted form
-    obtain ⟨t, htp, htw⟩ := hwfR
-    have htR : t = R := by
-      rcases htw with rfl | ⟨hns, hss, _, _⟩
-      · have : R = [.star] := List.perm_singleton.mp htp.symm
-        rw [this] at hnsR; simp [noStar, Con.isStar] at hnsR
-      · exact strictSorted_perm_eq h t R hss hsR htp
-    subst htR
-    have hgR : Good cmp t := by
-      rcases htw with rfl | hh
-      · simp [noStar, Con.isStar] at hnsR
-      · exact hh
-    refine ⟨t, ?_, hgR, ?_, ?_⟩
-    · simp only [step, hR]; exact mkRange_good h hgR
-    · intro x
-      rw [← denoteR_eq_denote t hgR.wf x, ← denoteR_eq_denote s hg.wf x]
-      exact hmean x
-    · intro π' hπ' hfixs
-      have := C08.simplify_seed_independent h π π' hop hπ' s hg.1 hg.2.1
-      rw [hR, hfixs] at this
-      injection this
+    obtain ⟨t, hR, hgR, hm, hfx⟩ := simplify_good h π hop s hg
+    exact ⟨t, by simp only [step, hR]; exact mkRange_good h hgR, hgR, hm, hfx⟩
+  | parseFlags sf vf π =>
+    have h0 : sortCons o s = .ok s := mkRange_good h hg
+    cases sf with
+    | false =>
+      have hv : validate o s = .ok true := (validate_ok_iff_wf h s).mpr ⟨s, List.Perm.refl _, hg.wf⟩
+      refine ⟨s, ?_, hg, fun _ => rfl, fun _ _ _ => rfl⟩
+      cases vf <;> simp [step, h0, hv, mkRange_good h hg]
+    | true =>
+      obtain ⟨t, hR, hgR, hm, hfx⟩ := simplify_good h π hop s hg
+      have hv : validate o t = .ok true := (validate_ok_iff_wf h t).mpr ⟨t, List.Perm.refl _, hgR.wf⟩
+      refine ⟨t, ?_, hgR, hm, hfx⟩
+      cases vf <;> simp [step, h0, hR, hv, mkRange_good h hgR]
 
 /-- Starting from any well-formed range (not the star), applying ANY finite sequence of
 print+parse, rebuild from shuffled constraints, simplify (any hash seed), validate and invert
